@@ -330,6 +330,21 @@ def default_flip_recipes(draw):
     return node
 
 
+@st.composite
+def tuple_tail_recipes(draw):
+    """Tuple items with a tail governed by additionalItems: arrays longer than the tuple are validated, additionalItems
+    is reassigned (another schema, false, true), and the same arrays are validated again."""
+    tail = draw(st.sampled_from([True, {"id": 5, "kind": "Number", "kw": {}}, {"id": 5, "kind": "String", "kw": {}}]))
+    arr = {"id": 2, "kind": draw(st.sampled_from(["Array", "Element"])), "kw": {},
+           "sub": {"items": [{"id": 3, "kind": "String", "kw": {}}, {"id": 4, "kind": "Integer", "kw": {}}][:draw(st.integers(1, 2))],
+                   "additionalItems": tail}}
+    if draw(st.booleans()):
+        return dict(arr, id=1)
+    return {"id": 1, "kind": "Element", "kw": {}, "props": [
+        {"name": "t", "source": None, "required": False, "element": arr}]}
+
+
+TAILS = [["s", 1, 2.5, 3], ["s", 1, "x"], ["s", 1], ["s"], ["s", 1, 2.5, "x", None], []]
 FLIPS = {"minimum": [0, 10, -3, 5], "multipleOf": [2, 3, 4, 1], "minLength": [0, 2, 5], "minItems": [0, 2, 3],
          "maxItems": [0, 1, 5], "required": [[], ["zz"], ["n"]]}
 
@@ -344,7 +359,7 @@ class Machine(RuleBasedStateMachine):
         self.counter = 0
 
     @initialize(recipe=st.one_of(R.recipes(CFG), R.recipes(CFG), R.recipes(CFG), overlap_recipes(), lookalike_recipes(),
-                                 default_flip_recipes()), data=st.data())
+                                 default_flip_recipes(), tuple_tail_recipes()), data=st.data())
     def init(self, recipe, data):
         self.h = Harness(recipe)
         # every history starts with validations, so that later reconfigurations
@@ -418,6 +433,25 @@ class Machine(RuleBasedStateMachine):
                 elif isinstance(base, list):
                     self._do({"op": "validate", "value": [lit]})
         self._aimed_validate(data)
+
+    @rule(data=st.data())
+    def retail(self, data):
+        """Validate arrays longer than a tuple, give the tuple another additionalItems, validate them again."""
+        idx = R.index(self.h.model)
+        cands = [i for i in self._nodes(["Array", "Element"]) if isinstance(idx[i].get("sub", {}).get("items"), list)]
+        if not cands:
+            return
+        nid = data.draw(st.sampled_from(cands))
+        wrap = (lambda v: v) if nid == self.h.model.get("id") else (lambda v: {"t": v})
+        arrays = data.draw(st.lists(st.sampled_from(TAILS), min_size=2, max_size=3))
+        for a in arrays:
+            self._do({"op": "validate", "value": wrap(a)})
+        self.counter += 1
+        new = data.draw(st.sampled_from([False, True, {"id": 9700 + self.counter, "kind": "String", "kw": {}},
+                                         {"id": 9700 + self.counter, "kind": "Null", "kw": {}}]))
+        self._do({"op": "set_sub", "node": nid, "key": "additionalItems", "value": new})
+        for a in arrays + [["s", 1, None]]:
+            self._do({"op": "validate", "value": wrap(a)})
 
     @rule(data=st.data())
     def flip_default_validity(self, data):
